@@ -679,6 +679,12 @@ def check_C02(A: Analysis, tier):
         if True:
             _sh.fail(f.func, f.construct, f.message, f.loc, f.detail)
     rules.append(_sh)
+    rj2 = Rule("C02", "C02.j", "the functions that compute and report digests read no local that some path leaves unbound (an empty object never "
+               "enters the read loop; shared with C08.g): a digest is returned for every content, the empty one included", floor=9)
+    from .rules_locks import unbound_reads_rule
+    unbound_reads_rule(A, rj2, only_funcs={A.impl_q(n_) for n_ in ("_computehash", "get_hex_digest", "_write_to_tmp_file_and_get_hex_digests",
+                                                                  "_refine_algorithm_list", "_clean_algorithm", "_verify_object_information")})
+    rules.append(rj2)
     rs2 = Rule("C02", "C02.f", "nothing a call computes is stored in the shared store object (shared with C07.g): results cannot depend on "
                "other calls through instance state", floor=10)
     shared_state_rule(A, rs2)
@@ -892,6 +898,29 @@ def check_C06(A: Analysis, tier):
                     rd.fail(c["func"], c["node"], "delete_if_invalid_object deletes something other than object_metadata.cid", A.p.loc(c["func"], c["node"]))
     rules.append(rd)
 
+    rh6 = Rule("C06", "C06.h", "an invalid verdict leaves the call as the mismatch error: between catching the verdict and re-raising it, the only "
+               "file-system operations are the removals the verdict calls for (the temp file; the unreferenced object behind its reference guard) - "
+               "nothing is read, opened, listed or created whose failure (a file that need not exist) would replace the mismatch error, and no such "
+               "handler completes normally", floor=2)
+    VERDICTS = ("NonMatchingObjSize", "NonMatchingChecksum")
+    for e in ("store_object", "delete_if_invalid_object"):
+        for m in ALL_MODES:
+            it = A.api(e, m)
+            for (fn, h, lab, ctx, o) in it.handler_runs:
+                if lab in VERDICTS:
+                    rh6.ob()
+                    rh6.inst(f"{e} [{m}]: {fn.qual}:{h.lineno} handles {lab}")
+                    if (o.normal is not None or o.ret is not None) and fn.qual != A.impl_q("store_object"):
+                        rh6.fail(fn, f"except {norm(h.type) if h.type is not None else 'bare'}", f"a {lab} verdict caught here can end in a normal completion: "
+                                 "the invalid object is reported as stored / valid", A.p.loc(fn, h), {"entry": e})
+            for ev in it.events:
+                if ev.handling and ev.handling[-1] in VERDICTS and ev.kind in ("READ", "WRITE", "CREATE", "MKDIR") and not ev.prim.startswith("file."):
+                    rh6.ob()
+                    rh6.fail(site_func(ev), site_text(ev), f"while the {ev.handling[-1]} verdict is being handled, {e} performs {ev.kind} ({ev.prim}) on "
+                             f"{sorted({c.cls for c in primary(ev.classes[0])}) if ev.classes else '?'}: if that fails - the file need not exist for an object nothing "
+                             "references yet - its error replaces the documented mismatch error", site_loc(A, ev), {"entry": e, "mode": m})
+    rules.append(rh6)
+
     from .rules_locks import shared_state_rule
     rs6 = Rule("C06", "C06.f", "the verdict and its clean-up use only this call's own values: no per-call state is parked in the shared "
                "store object (shared with C07.g)", floor=10)
@@ -930,8 +959,8 @@ def check_C06(A: Analysis, tier):
 
 # =======================================================================================
 SWALLOWERS = {
-    (Q("_exists"), "FileNotFoundError"): "existence probe: absence is its answer (the property exempts probes)",
-    (Q("_delete"), "FileNotFoundError"): "absent metadata document: documented silent no-op",
+    # (the two handlers that turn the look-up helpers' "could not locate" into an answer - `_exists` and the metadata arm of
+    # `_delete` on the pinned tree - are recognised by what they catch, see absence_answer(), not by where they stand)
     (Q("_create_path"), "FileExistsError"): "idempotent mkdir; asserts the directory exists",
     ("Stream.__init__", "(FileNotFoundError, PermissionError, OSError)"): "block-size probe; falls back to 8192",
     ("Stream.__init__", "(FileNotFoundError, PermissionError, OSError, AttributeError)"): "block-size probe; falls back to 8192",
@@ -941,6 +970,29 @@ SWALLOWERS = {
     (Q("_mark_pid_refs_file_for_deletion"), "Exception"): "roll-back helper (C13.b): the original error is re-raised by the caller",
     (Q("_remove_pid_and_handle_cid_refs_deletion"), "Exception"): "roll-back helper (C13.b): the original error is re-raised by the caller",
 }
+
+
+def handler_entries(A, h):
+    """[(label, must-done set at entry)] for every time the interpreter entered handler `h` in a public call (both modes)"""
+    d = getattr(A, "_handler_entries", None)
+    if d is None:
+        d = {}
+        for it in A.all_api_runs():
+            for (fn, hh, lab, ctx, o) in it.handler_runs:
+                d.setdefault(id(hh), []).append((lab, o.entry.done if o.entry is not None else frozenset()))
+        A._handler_entries = d
+    return d.get(id(h), [])
+
+
+def absence_answer(A, h):
+    """the handler catches FileNotFoundError and every exception that reaches it in any public call was created by the
+    "could not locate" raise statement of one of the two look-up helpers (an existence answer, which the property exempts),
+    never by a failing library call"""
+    if h.type is None or norm(h.type) != "FileNotFoundError":
+        return False
+    lookups = {A.impl_q("_get_hashstore_data_object_path"), A.impl_q("_get_hashstore_metadata_path")}
+    ent = handler_entries(A, h)
+    return bool(ent) and all(lab == "FileNotFoundError" and any(d_ == ("raised_in", q) for d_ in done for q in lookups) for lab, done in ent)
 
 
 def os_capable(h):
@@ -970,6 +1022,8 @@ def check_C13(A: Analysis, tier):
                 if ends_in_raise(h.body):
                     continue
                 key = (f.qual, ty)
+                if absence_answer(A, h):
+                    continue
                 if key in SWALLOWERS:
                     # the finally-clean-up entry applies only to a handler nested in a finally
                     if f.qual == Q("_write_to_tmp_file_and_get_hex_digests"):
@@ -1117,6 +1171,12 @@ def check_C13(A: Analysis, tier):
                             rf.fail(shr, f"raise of {lab} after publishing", f"an error ({lab}) raised after the pid reference file was moved into place "
                                     "leaves _store_hashstore_refs_files without passing the roll-back handler: the call fails but the pid stays bound",
                                     A.p.loc(shr, generic))
+                        elif ("entered", Q("_untag_object")) not in st.done:
+                            # inside the handler, something that can fail (a message built with `%` from run-time text, a look-up, ...)
+                            # stands before the roll-back call
+                            rf.fail(shr, f"raise of {lab} in the roll-back handler before _untag_object", f"after the pid reference file was moved into place, an error ({lab}) "
+                                    "can leave the roll-back handler before _untag_object has been called (a statement that may raise stands in front of "
+                                    "it): the call fails but the pid stays bound", A.p.loc(shr, generic))
     rules.append(rf)
 
     rg = Rule("C13", "C13.g", "the error-swallowing remover _delete_marked_files is only ever handed `_delete` markers (files "
@@ -1212,7 +1272,7 @@ def check_C13(A: Analysis, tier):
                 ty = "bare" if h.type is None else norm(h.type)
                 re_.ob()
                 re_.inst(f"{fn.qual}:{h.lineno} except {ty} <- {lab}")
-                if (o.normal is not None or o.ret is not None) and (fn.qual, ty) not in SWALLOWERS:
+                if (o.normal is not None or o.ret is not None) and (fn.qual, ty) not in SWALLOWERS and not absence_answer(A, h):
                     re_.fail(fn, f"except {ty}", f"a {lab} error caught here lets {e} continue to a normal return", A.p.loc(fn, h))
     rules.append(re_)
     return rules
@@ -1276,6 +1336,23 @@ def check_C14(A: Analysis, tier):
                 ra.fail(vp, f"int({k})", f"`{k}` is compared without integer coercion of the supplied value (an integer-like string would be refused)",
                         A.p.loc(vp, vp.node))
     rules.append(ra)
+
+    rh14 = Rule("C14", "C14.h", "a pinned key that is missing from hashstore.yaml is an error, not a key that goes uncompared: under the scenario "
+                "\"hashstore.yaml exists and key k is absent from the loaded configuration\" the constructor has no normal return (one run per pinned key)", floor=4)
+    for k in pinned:
+        def scen(atom, k=k):
+            if cfg_exists(atom):
+                return True
+            if atom[0] == "cmp" and atom[1] == "in" and atom[2] == V(C(k)) and atom[3] and all(tag(t) == "yaml" for t in atom[3]):
+                return False
+            return None
+        it_k = A.run(Q("__init__"), "th", tagk=f"config-lacks-{k}", assume=scen)
+        rh14.ob()
+        rh14.inst(f"hashstore.yaml without {k}: exits {sorted({(kk, str(l_)) for kk, l_, _s, _r in it_k.exits})}")
+        if any(kk == "return" for kk, l_, _s, _r in it_k.exits):
+            rh14.fail(vp, f"missing {k}", f"with `{k}` missing from hashstore.yaml (hand edit, damage, another writer) the constructor still completes "
+                      f"normally: the key is never compared and the store opens with whatever {k} the caller supplies", A.p.loc(vp, vp.node))
+    rules.append(rh14)
 
     rb = Rule("C14", "C14.b", "in the constructor every file-system change is preceded on all paths by property "
               "validation and the comparison with the stored configuration; the configuration is written only for an "
@@ -1788,6 +1865,49 @@ def check_C20(A: Analysis, tier):
                                   "and one that bypasses the API's claims (a concurrent call's temp file, reference or object can be hit)", A.p.loc(ev.func, ev.node))
     rg20.ob()
     rules.append(rg20)
+
+    rh20 = Rule("C20", "C20.h", "the command line reaches the option variables verbatim: the ArgumentParser enables no feature that re-interprets a token "
+                "(argument files `fromfile_prefix_chars`, other `prefix_chars`, a parser-wide `argument_default`, inherited `parents`), and no value "
+                "option narrows or reshapes what the API accepts (`choices`, `nargs`, `const`, a `type` other than int / str)", floor=1)
+    PARSER_DEFAULTS = {"fromfile_prefix_chars": None, "prefix_chars": "-", "argument_default": None, "conflict_handler": "error"}
+    nparsers = 0
+    for f_ in [f for f in A.p.funcs.values() if f.module.name == "hashstoreclient"]:
+        for c in ast.walk(f_.node):
+            if not isinstance(c, ast.Call):
+                continue
+            if norm(c.func).split(".")[-1] == "ArgumentParser":
+                nparsers += 1
+                rh20.ob()
+                rh20.inst(f"{f_.qual}:{c.lineno} ArgumentParser({', '.join(k.arg or '**' for k in c.keywords)})")
+                for k in c.keywords:
+                    if k.arg in PARSER_DEFAULTS and not (isinstance(k.value, ast.Constant) and k.value.value == PARSER_DEFAULTS[k.arg]):
+                        rh20.fail(f_, f"{k.arg}={norm(k.value)}", f"ArgumentParser({k.arg}={norm(k.value)}): tokens of the command line - option VALUES included - are "
+                                  "re-interpreted by the parser (e.g. a pid or format id that starts with the prefix character is read as an argument file / "
+                                  "an option), so an identifier the API accepts never reaches it", A.p.loc(f_, k.value))
+                    if k.arg == "parents" and not (isinstance(k.value, (ast.List, ast.Tuple)) and not k.value.elts):
+                        rh20.fail(f_, f"parents={norm(k.value)}", "options inherited from another parser are not in the option table the other C20 rules check",
+                                  A.p.loc(f_, k.value))
+        # option declarations: add_argument(...) keywords, and rows of a declaration table (dict literals with a "dest" key)
+        decls = [(norm(c.args[0]) if c.args else "?", {k.arg: k.value for k in c.keywords if k.arg}, c) for c in ast.walk(f_.node)
+                 if isinstance(c, ast.Call) and isinstance(c.func, ast.Attribute) and c.func.attr == "add_argument"]
+        decls += [(norm(dict(zip([k.value for k in d.keys if isinstance(k, ast.Constant)], d.values)).get("dest", d)), {k.value: v for k, v in zip(d.keys, d.values) if isinstance(k, ast.Constant)}, d)
+                  for d in ast.walk(f_.node) if isinstance(d, ast.Dict) and any(isinstance(k, ast.Constant) and k.value == "dest" for k in d.keys)]
+        for name_, kw, node_ in decls:
+            if not kw:
+                continue
+            act = kw["action"].value if "action" in kw and isinstance(kw["action"], ast.Constant) else None
+            rh20.ob()
+            rh20.inst(f"{f_.qual}:{node_.lineno} option {name_}")
+            for bad in ("choices", "nargs", "const"):
+                if bad in kw and act in (None, "store"):
+                    rh20.fail(f_, f"option {name_}: {bad}={norm(kw[bad])}", f"`{bad}` on a value option: values the API accepts are "
+                              "refused by the client, or reach the API as a list / constant instead of the string given", A.p.loc(f_, kw[bad]))
+            if "type" in kw and norm(kw["type"]) not in ("int", "str"):
+                rh20.fail(f_, f"option {name_}: type={norm(kw['type'])}", "the option value is transformed by a `type` callable before it "
+                          "reaches the API: the call is made with another value than the one given", A.p.loc(f_, kw["type"]))
+    if not nparsers:
+        raise AnalysisError("no ArgumentParser construction found in hashstoreclient.py (anchor lost)")
+    rules.append(rh20)
 
     rf = Rule("C20", "C20.f", "the create-store verb always hands the command-line properties to the API constructor "
               "(whether they are acceptable for an existing store is the API's decision, not the client's)", floor=1)
